@@ -279,7 +279,8 @@ def _sampler_case(case, ctx):
                   preconditioning=case["pre"])
         if case["n_final"]:
             kw["n_final_samples"] = case["n_final"]
-        kw["sampler_kwargs"] = {"n_steps": 2, "step_fn": "rw"} if case["sampler"] == "smc" else {"nsteps": 2, "progress": False}
+        frozen = case["sampler"] == "smc" and case["seed"] % 2 == 0
+        kw["sampler_kwargs"] = {"n_steps": 2, "step_fn": "frozen" if frozen else "rw"} if case["sampler"] == "smc" else {"nsteps": 2, "progress": False}
         if case["sampler"] == "smc":
             kw["rng"] = np.random.default_rng(case["seed"])
     elif case["sampler"] == "minipcn":
@@ -308,6 +309,20 @@ def _sampler_case(case, ctx):
                 ctx.fail("sampler:namespace", f"{where}.{f} is {type(v).__module__}.{type(v).__name__}, expected namespace {want_ns}", case, where=where.split("[")[0])
 
     chk(samples, "returned", out_ns or ns)
+    if smc and case["sampler"] == "smc" and case["seed"] % 2 == 0 and wreq == "float64" and hist is not None:
+        # frozen kernel: every particle of every population must still be, bit for bit, a point the proposal emitted
+        # (a population that silently passed through a narrower width is rounded)
+        emitted = np.concatenate([h[0] for h in flow.handed]).astype(np.float64)
+        em = {tuple(r) for r in emitted.tolist()}
+        for t, p in enumerate(hist.sample_history):
+            rows = env.to_np(p.x).astype(np.float64).tolist()
+            lost = [r for r in rows if tuple(r) not in em]
+            if lost:
+                ctx.fail("sampler:values-rounded", f"history.sample_history[{t}] contains coordinates {lost[0]!r} that are not bit-for-bit a point "
+                                                   f"the proposal emitted (float64 requested on {ns}, preconditioning={case['pre']}): "
+                                                   f"the population passed through a narrower width", case, pre=case["pre"])
+                break
+        labels.append("frozen-bitwise")
     if wreq is not None and any(w != wreq for w in seen_widths):
         bad = sorted(set(w for w in seen_widths if w != wreq))
         ctx.fail("sampler:built-population-width", f"{case['sampler']} on {ns}: a population handed to the user's likelihood had dtype {bad}, "
